@@ -1,6 +1,10 @@
 use super::*;
 
 use kanata_parser::subset::GetOrIsSubsetOfKnownKey::*;
+#[cfg(kanata_verif)]
+use crate::verif_seam as std;
+#[cfg(kanata_verif)]
+use ::parking_lot;
 
 use std::sync::Arc;
 use std::sync::Mutex;
